@@ -272,21 +272,21 @@ def selections(K, full=False):
 
 
 def place(items, placement, env, keytype=None, cut_datatype=None, schema_handler=None, cuts_handler=None,
-          mids_handler=None):
+          mids_handler=None, schema_datatype=None, cut_extends=None, cut_keytype=None):
     """Build the schema whose container-under-test holds `items`.
     placement 0: the schema itself; 1: section type 'cut' reachable through a
     '*' multisection at top; 2: 'cut' inside 'mid' inside the schema."""
     if placement == 0:
-        return Schema(types=env, items=items, keytype=keytype, handler=schema_handler), []
-    cut = SType("cut", items, keytype=keytype, datatype=cut_datatype)
+        return Schema(types=env, items=items, keytype=keytype, handler=schema_handler, datatype=schema_datatype), []
+    cut = SType("cut", items, keytype=cut_keytype or keytype, datatype=cut_datatype, extends=cut_extends)
     if placement == 1:
         s = Schema(types=env + (cut,), items=(Sect("*", "cut", attribute="cuts", multi=True, handler=cuts_handler),),
-                   handler=schema_handler)
+                   handler=schema_handler, datatype=schema_datatype)
         return s, [("o", "cut", None)]
     mid = SType("mid", (Sect("*", "cut", attribute="cuts", multi=True, handler=cuts_handler),
                         Key("mk", default="md")))
     s = Schema(types=env + (cut, mid), items=(Sect("*", "mid", attribute="mids", multi=True, handler=mids_handler),),
-               handler=schema_handler)
+               handler=schema_handler, datatype=schema_datatype)
     return s, [("o", "mid", None), ("o", "cut", None)]
 
 
